@@ -376,7 +376,6 @@ class Compose(productmd.common.MetadataBase):
     def deserialize_0_3(self, data):
         self.id = data[self._section]["id"]
         self.label = data[self._section].get("label", None) or None
-        self.type = data[self._section]["type"]
         self.date, self.type, self.respin = get_date_type_respin(self.id)
         self.final = bool(data[self._section].get("final", False))
 
